@@ -174,6 +174,30 @@ def run(ctx):
                         break
             finally:
                 pr.destroy()
+    # a cycle that closes through an out-of-band (redo-unlocked) rebuild back to the target whose lock the caller holds
+    if not viol:
+        for j in ("-j1", "-j3"):
+            pr = Project()
+            try:
+                pr.write("T.do", "redo-ifchange D\ncat D\n")
+                pr.write("D.do", 'redo-ifchange src\ncat src >"$3"\nredo-stamp <"$3"\n')
+                pr.write("src", "1\n")
+                r0 = sched.run_cmds(pr, [["redo-ifchange", "T"]], timeout=30)[0]
+                pr.write("D.do", 'redo-ifchange src T\ncat src >"$3"\nredo-stamp <"$3"\n')
+                r = sched.run_cmds(pr, [["redo", j, "T"]] if j != "-j1" else [["redo-ifchange", "T"]], timeout=15)[0]
+                stats["parallel_runs"] += 1
+                stats["oob_cycle_runs"] = stats.get("oob_cycle_runs", 0) + 1
+                if r0.rc != 0 or r.timed_out or r.rc == 0 or "panicked" in r.err:
+                    pth = write_replay("C12", "oob-cycle" + j, dict(kind="impl-monitor", argv=["redo-ifchange" if j == "-j1" else "redo " + j, "T"], rc=r.rc, setup_rc=r0.rc, stderr=r.err[-1500:],
+                                                                   scenario="T.do: redo-ifchange D; D (checksummed) built once; D.do edited to `redo-ifchange src T`; rebuild of T"))
+                    viol.append(Violation("C12", pth, "cycle closed through an out-of-band rebuild back to its own target (%s): %s" % (j, "hang" if r.timed_out else "exit 0" if r.rc == 0 else "setup failed" if r0.rc else "panic")))
+                    break
+                if "cyclic dependency" not in r.err and " 208" not in r.err:
+                    pth = write_replay("C12", "oob-cycle-msg" + j, dict(kind="impl-monitor", rc=r.rc, stderr=r.err[-1500:]))
+                    viol.append(Violation("C12", pth, "cycle through an out-of-band rebuild (%s) ended non-zero but no process identified a cyclic dependency" % j))
+                    break
+            finally:
+                pr.destroy()
     return dict(evaluations=stats["commands"] + stats["parallel_runs"], distinct_nontrivial=stats["cyclic_commands"],
                 rule="generated graphs with a cycle of length 1-4 behind an acyclic prefix of length 0-2 and 0-2 acyclic siblings; redo-ifchange from several entry targets, with a sibling first, redo of a cycle member, then the listings (all at -j1, compared with the model op by op); plus -j3 runs entering the cycle from one chain and from two branches under a 20 s bound; non-trivial = commands whose targets reach the cycle",
                 samples=samples, disagreements_checked=stats["commands"], traces_validated_against_impl=len(cases), distribution=stats, known_hit=known_hit)
